@@ -3,7 +3,7 @@ from registry_common import COMMON_ASSUME
 ENTRY = dict(
         title="Event dispatch: ordered callbacks, consistent stored value, once means once",
         design_ref="DESIGN.md section 6 / C13",
-        prop_modules=["C13", "C13Spec"],
+        prop_modules=["C13", "C13Spec", "C13Filter"],
         technique="Lean 4 interleaving machine (API calls, 'dispatch task i moves', 'waiter j moves', 'clock advances') with one inductive "
                   "invariant over ALL event lists and ALL callback scripts + trace-inclusion correspondence: a real EventManager with callbacks "
                   "suspended on harness-controlled futures under a virtual-time loop; the Lean driver replays the schedule the harness chose",
@@ -30,10 +30,22 @@ ENTRY = dict(
             "subscribe_once awaited at most once, every interleaving": "theorem (once_at_most_once)",
             "an unsubscribed callback is awaited by no later dispatch, every interleaving": "theorem (unsubscribed_not_called_by_later_dispatch, unsubscribed_once_not_called_by_later_dispatch)",
             "the statement as a judge over observations (C13.spec: threading, order, once, stored, getters)": "theorem (C13.holds: every observation of the machine, any scripts, any history of calls / releases / loop runs / clock moves, satisfies C13.spec; clause theorems threading_holds, order_holds, once_holds, stored_holds, getters_hold) + the same executable predicate judged by the Lean driver (c13judge) on every observation of the real EventManager",
+            "subscribers registered through filter factories: each is handed the value returned by the previous one": "theorem (Props/C13Filter.lean over Model/FilterChain.lean: filter_result — for every filter expression (chains of any depth), every state and every wrapped callback a filter call returns the callback's result on what it delivered and None when it does not deliver; delivering_call_is_the_callback; passing_filter_is_transparent; skipping_call_keeps; dispatch_threading; passing_chain_is_plain_chain — behind pass-through filters that let the value through the stored value is that of the plain callbacks' chain) + correspondence (driver ops c13fr / c13chain vs real filter objects and a real EventManager: every factory, chains of two and three, callbacks returning None / value+c / falsy replacements, get() after every dispatch) + statement-level judge on the implementation's own log; custom_returns_result (custom() dropped the result before fix dfda3f3)",
             "event_manager.py behaves as the machine": "correspondence (trace inclusion: schedule accepted, same invocation log, data, task states, waiter results and virtual times)",
         },
+        public_routes=(
+            "route audit (public methods reaching the statement's behaviour; driven = the harness calls it): subscribe — driven (plain function, bound method, "
+            "behind throttle(0) / debounce(0) and chains of the two in the interleaving histories; behind every factory incl. on_change, delta, aggregate, custom and "
+            "chains in the sequential `chain` section); subscribe_once — driven (also behind pass-everything filters); unsubscribe — driven (raw callback, new equal "
+            "bound method, NEW filter object around the callback i.e. Filter.__eq__ against functions and against other filters, the once-wrapper returned by "
+            "subscribe_once); dispatch — driven (task awaiting it; awaited directly in the `chain` section); dispatch_nowait — driven; load / load_nowait — driven "
+            "(1..3 names, one dispatch task per entry in dict order, identified through a task factory; for the machine: that many spawnDispatch events); get / wait_for "
+            "— driven (no timeout, 0, 1..9 ticks); get_nowait (with and without default) and __getattr__ — driven at every snapshot against the stored value; "
+            "create_event / set_event / events — reached through wait_for / dispatch only (calling them directly is outside the statement); Filter comparison "
+            "operators: __eq__ driven through unsubscribe and list membership, there are no ordering operators."),
         assumptions=COMMON_ASSUME + [
-            "a callback is identified as the event manager identifies it (==): a plain function, a bound method (a new but equal object at every attribute access) and the same callback behind a filter that lets every value through are ONE callback function of the machine; the harness subscribes all three flavours and always unsubscribes by the raw callback",
+            "a callback is identified as the event manager identifies it (==): a plain function, a bound method (a new but equal object at every attribute access) and the same callback behind a filter that lets every value through are ONE callback function of the machine; the harness subscribes all three flavours and unsubscribes by the raw callback or by a new filter object around it",
+            "in the interleaving histories the filters in front of callbacks let every value through (throttle(0), debounce(0), chains of them; aggregate(cb, 0) is not such a filter once calls overlap: a second call adds to the sum while the first one's callback is suspended); value-dependent filters are driven with sequential dispatches (`chain` section)",
             "callbacks interact with the manager only by suspending and returning (they do not subscribe/dispatch themselves); values are naturals",
             "a timed wait that was woken is resumed before its deadline passes (the harness never lets the clock pass a deadline with a woken waiter pending)",
             "timeouts and event times are quantised so that a deadline never coincides with an arrival",
